@@ -301,6 +301,9 @@ namespace verif
 
     Verdict run_case(const uint8_t* data, size_t size, Report& rep)
     {
+        GroupingLocale loc(GroupingLocale::wanted(data, size));
+        if (loc.on)
+            rep.label("global-locale-groups-digits");
         Choices c(data, size);
         unsigned entry = c.pick(8);
         if (entry == 0)
